@@ -2,25 +2,33 @@
 
 Every non-test item of crates/pretty/src/render.rs and the type definitions of crates/pretty/src/doc.rs are cut from
 the working tree on every run (Src.top_level / Src.item).  Rewrite rules applied (all stated, all per item):
-  E1  `use` lines and the `#[cfg(test)]` module are dropped; doc.rs constructor fns are not emitted (types only)
+  E1  `use` lines and the `#[cfg(test)]` module are dropped (the fixed prelude has `use std::rc::Rc; use std::path::PathBuf;`);
+      doc.rs constructor fns are not emitted (types only); from crates/sourcemap/src/sourcemap.rs only `struct SourceMap` and
+      `SourceMap::add` are emitted (Tier 2), the external `sourcemap` crate is replaced by a recording stand-in (sourcemap_spec.rs)
   E8  `#[verifier::exec_allows_no_decreases_clause]` on the two `while let` functions (termination not proved)
   O1  E.matches('\\n').count()                      -> vp_count_nl(&E)      assumed: r == count_nl(E@)
   O2  E.chars().count()                            -> vp_char_count(&E)    assumed: r == E@.len()
   O3  E.rsplit('\\n').next().unwrap_or("")          -> vp_last_line(&E)     assumed: r@ == suffix after last '\\n'
   O7  strip_trailing_whitespace                    -> external_body        assumed: r@ == strip_tw(s@, newline@) (uninterpreted)
   O9  E[a..].iter().all(|b| *b == b' ')            -> vp_all_spaces(E, a)  assumed: r == all bytes from a are 0x20
-  G1  ghost field `offs: Ghost<Seq<nat>>` in State (+ its initialiser), and the offset of the output end is recorded
-      in front of every `state.anchors.push(`
+  G1  ghost field `offs: Ghost<Seq<nat>>` in State (+ its initialiser); in front of every `state.anchors.push(` the offset of
+      the output end is pushed to it (and the output is snapshotted in the ghost local `vp_mid`)
   G2  every `for P in E` gets a ghost iterator name: `for P in vp_it: E` (so invariants can mention the index)
   G3  proof blocks around `state.out.truncate(len - want);` (UTF-8 axiom before, anchor lemma after)
+All other ghost text goes to function start/end and loop head/body start/body end/before/after (ordinal keyed).
+Verus runs with `-V spinoff-all` (one solver instance per function, so a failing function cannot perturb the others), rlimit 300.
+Known finding F-C28-col: with a `finding:` line of class block-comment-newline for C28/C13 in known_findings.txt the class is excluded on the
+input side (comment_wf: a block comment's text has no '\n'), the witness is replayed by known_findings(); otherwise the honest contract
+is used and obligation verus:pretty:render_comments fails on the unchanged tree (loop invariant col_ok / st_inv at the end of the body).
 """
 from vp.core import VerusJob
 from vp.extract import ExtractError
 from vp.verus_run import VerusFile
 
+S = "crates/sourcemap/src/sourcemap.rs"
 R = "crates/pretty/src/render.rs"
 D = "crates/pretty/src/doc.rs"
-HEADER = "use vstd::prelude::*;\nuse std::rc::Rc;\nverus! {\nglobal size_of usize == 8;\n"
+HEADER = "use vstd::prelude::*;\nuse std::rc::Rc;\nuse std::path::PathBuf;\nverus! {\nglobal size_of usize == 8;\n"
 
 TRUSTED = {
     r"fn vp_count_nl": "O1: `E.matches('\\n').count()` outlined to vp_count_nl (external_body); assumed: result == number of '\\n' chars in E",
@@ -35,6 +43,10 @@ TRUSTED = {
                          "ensures unchanged if n >= byte length, else exactly that char prefix remains",
     r"axiom_utf8_trailing_spaces": "assumed UTF-8 fact (external_body proof fn): if the last k bytes of the encoding are 0x20 then the last k chars are ' ' and the encoding of the string "
                                    "without them is k bytes shorter",
+    r"struct ExPathBuf": "external_type_specification for std::path::PathBuf (opaque field type of struct SourceMap; no property assumed)",
+    r"struct SourceMapBuilder": "stand-in for the external crate type sourcemap::SourceMapBuilder (external_body, opaque)",
+    r"pub fn add\(&mut self, dst_line: u32, dst_col: u32": "assumed external: sourcemap::SourceMapBuilder::add records the coordinate tuple it is given (stand-in, external_body); "
+                                                           "what the sourcemap crate does with it is not covered",
     r"fn render_inner": "E8: termination of the `while let Some(frame) = stack.pop()` loop of render_inner is not proved (exec_allows_no_decreases_clause)",
     r"fn fits_flat": "E8: termination of the `while let Some(..) = work.pop()` loop of fits_flat is not proved (exec_allows_no_decreases_clause)",
 }
@@ -51,13 +63,13 @@ RECORD = "proof { vp_mid = state.out@; } state.offs = Ghost(state.offs@.push(sta
 
 def excluded(ctx):
     """known finding F-C28-col active -> exclude the class on the input side"""
-    return any(f.get("class") == "block-comment-newline" for f in ctx.active_findings("C28") + ctx.active_findings("C13"))
+    fs = ctx.active_findings("C28") + ctx.active_findings("C13")
+    return any(f.get("class") == "block-comment-newline" or f.get("input-class") == "block-comment-newline" for f in fs)
 
 
 # ---- contracts ---------------------------------------------------------------------------------------------
 ST_PRE = "wf_opts(*opts), st_inv(*old(state)), anchors_ok(*old(state)),"
 ST_POST = "st_inv(*final(state)), anchors_ok(*final(state)),"
-UNCH_LOOP = "same_but_out(vp_s0, *state),"
 
 
 def c_pad_for(f):
@@ -343,6 +355,7 @@ CANARIES = [
     ("vp_canary_render_frame", "proof fn vp_canary_render_frame(frame: Frame<'_>, st: State, k: Seq<Frame<'_>>, o: RenderOpts) requires %s, frame_wf(frame), stack_wf(k), k.len() > 0, "
                                "used(st) + frame_cost(frame, o) + stack_cost(k, o) <= lim() ensures false {}" % _ST),
     ("vp_canary_render", "proof fn vp_canary_render(doc: Doc, o: RenderOpts) requires render_pre(doc, o), doc is Concat ensures false {}"),
+    ("vp_canary_source_map", "proof fn vp_canary_source_map(r: Rendered, o: RenderOpts) requires rendered_ok(r, o), r.anchors@.len() > 1 ensures false {}"),
 ]
 
 
@@ -404,9 +417,30 @@ def build(ctx, res):
     if missing:
         raise ExtractError("render.rs: functions under contract not found: %s" % ", ".join(missing))
 
+    # ---- sourcemap.rs: struct SourceMap + SourceMap::add (C13 consumer side, Tier 2) ----
+    sm = ctx.src(S)
+    it = sm.item("struct", "SourceMap")
+    items.append(it)
+    vf.item(it)
+    vf.raw("impl SourceMap {", "impl")
+    it = sm.item("fn", "add", impl="SourceMap")
+    it.spec("""        requires dst_line >= 1, dst_column >= 1, src_line >= 1, src_column >= 1,
+        ensures final(self).sent() == old(self).sent().push(((dst_line - 1) as u32, (dst_column - 1) as u32, (src_line - 1) as u32, (src_column - 1) as u32)),""")
+    res.clauses["SourceMap::add"] = "requires all four coordinates >= 1 ensures the builder receives exactly (x - 1) for each (no underflow)"
+    items.append(it)
+    vf.item(it, "SourceMap::add")
+    vf.raw("}", "impl")
+    vf.raw(ctx.unit_file("pretty", "sourcemap_spec.rs"), "spec")
+    expect += ["SourceMap::add", "vp_feed_source_map", "lemma_line_col_monotone", "lemma_rendered_sorted"]
+
     vf.raw("spec fn vp_excl_block_nl() -> bool { %s }\n" % ("true" if excl else "false"), "spec")
     vf.raw(ctx.unit_file("pretty", "spec.rs"), "spec")
     text = vf.finish()
+    res.samples.append({"obligation": "verus:pretty:emit_anchored",
+                        "contract": "requires wf_opts, st_inv, anchors_ok, anchored_wf(a), used+|text| <= 2^31 ensures st_inv, anchors_ok, "
+                                    "out == old.out + spaces(flush_n) + a.text, offs == old.offs.push(|old.out| + flush_n)"})
+    res.samples.append({"obligation": "verus:pretty:render_frame",
+                        "contract": "ensures frame_post: IfBreak(s) => if mode is Break { out == old.out + indentation + s } else { state unchanged } (same for IfBreakPad; IfFlatPad with Flat)"})
     res.notes.append("known-finding class block-comment-newline (F-C28-col) %s" % ("EXCLUDED on the input side (wf_doc requires no block comment with '\\n')" if excl else "not excluded: honest contract"))
     expect += ["lemma_count_nl_add", "lemma_col_of_add", "lemma_col_le", "lemma_nl_le", "lemma_push_nl", "lemma_push_col", "lemma_spaces",
                "lemma_trunc_spaces", "lemma_mul_bound", "lemma_newline", "lemma_prefix_index", "lemma_anchors_grow", "lemma_anchors_trunc",
@@ -430,7 +464,13 @@ def replay(ctx, res, f):
     """seeded native run: random small Doc trees (inside the contract's input class) rendered by the original text;
     every anchor's (dst_line, dst_column) must be where its (unique) text is in the output, anchors ordered"""
     from vp.core import native_search
-    return native_search(ctx, "pretty", "pretty", _native_program(ctx), args=[ctx.seed, "1" if excluded(ctx) else "0"])
+    # block comments containing '\n' only ever falsify render_comments' invariant (F-C28-col); for any other failed
+    # obligation they are left out so that the input found belongs to that obligation
+    fn = getattr(f.get("obl"), "fn", None) if isinstance(f, dict) else None
+    if fn in ("SourceMap::add", "vp_feed_source_map"):
+        return {"found_input": False, "native_search": "no native replay for %s: it only talks to the external sourcemap crate" % fn}
+    skip = excluded(ctx) or (fn is not None and fn != "render_comments")
+    return native_search(ctx, "pretty", "pretty", _native_program(ctx), args=[ctx.seed, "1" if skip else "0"])
 
 
 def known_findings(ctx, res):
